@@ -32,7 +32,6 @@ def handler (mode : String) (line : String) : String :=
                   match parse os with
                   | some (.list [.atom "bad-case"]) => "fail clause=harness-rejected-case"
                   | some (.list [.atom "stale-case"]) => "fail clause=stale-case"
-                  | some (.list [.atom "err"]) => "fail clause=encode-error"
                   | some ot =>
                       match obs? ot with
                       | some o => Spec.verdictStr i (Spec.check i o)
@@ -41,6 +40,9 @@ def handler (mode : String) (line : String) : String :=
               | none => "(bad-case)"
           | none => "(bad-line)"
       | _ => "(bad-line)"
+  | "t-split" => toString (line.splitOn "\t").length
+  | "t-parse" => match parse line with | some _ => "parsed" | none => "noparse"
+  | "t-obs" => match (parse line).bind obs? with | some _ => "obs" | none => "noobs"
   | _ => "(bad-mode)"
 
 end Rbgp.C04
